@@ -42,8 +42,10 @@ E = {
                 props=["C03"], opts={"gen": 4.0, "start_gen": 0.9, "upd": 0.3, "regen": 0.2, "proj": 0.2, "masked": 0.2}, focus={}),
     "C06": dict(title="backward requests undo edits exactly", strength="partial",
                 modules=["GenjaxVerif.Props.C06"],
-                theorems=["C06_leaf_roundtrip_partial", "C06_backward_structure", "C06_refuted", "C06_switch_backward_is_the_branchs"],
-                props=["C06"], opts={"upd": 4.0, "bwd": 1.0, "regen": 0.2, "proj": 0.1, "max_ops": 4}, focus={}),
+                theorems=["C06_leaf_roundtrip_partial", "C06_backward_structure", "C06_refuted", "C06_switch_backward_is_the_branchs",
+                          "C06_static_request_backward"],
+                props=["C06", "C38"], opts={"upd": 4.0, "bwd": 1.0, "regen": 0.2, "proj": 0.1, "max_ops": 4, "sreq": 3.0},
+                focus={"int": 14.0, "static": 4.0}),
     "C08": dict(title="change tags are sound: NoChange really means unchanged", strength="partial",
                 modules=["GenjaxVerif.Props.C09", "GenjaxVerif.Props.C05"],
                 theorems=["GenjaxVerif.IR.C09_noninterference", "GenjaxVerif.IR.C09_tags_value_independent",
@@ -55,20 +57,20 @@ E = {
                 theorems=["C11_vmap_elementwise", "C11_element_input", "C11_indexed_constraint_only_its_element",
                           "C11_choices_under_index", "C11_zero_length", "C11_repeat_def", "C11_repeat_element_args",
                           "C11_index_request_edits_one_element", "C11_index_update_weight", "C11_slice_follows_axis"],
-                props=["C01", "C02", "C03", "C05", "C11"], opts={"upd": 1.5, "gen": 1.5, "regen": 0.1, "masked": 0.1, "idx": 2.5},
+                props=["C01", "C02", "C03", "C05", "C11", "C34"], opts={"upd": 1.5, "gen": 1.5, "regen": 0.1, "masked": 0.1, "idx": 2.5},
                 focus={"vmap": 10.0, "repeat": 6.0, "axis1": 0.3}, zero_len=0.12),
     "C12": dict(title="scan and its derived combinators match the documented Python loops", strength="full",
                 modules=["GenjaxVerif.Props.C12"],
                 theorems=["C12_scan_is_the_loop", "C12_final_carry", "C12_iteration_input", "C12_derived_defs",
                           "C12_derived_return_maps", "C12_index_edit"],
-                props=["C01", "C02", "C03", "C05", "C07", "C11"], opts={"upd": 1.5, "gen": 1.0, "regen": 1.0, "idx": 2.5},
+                props=["C01", "C02", "C03", "C05", "C07", "C11", "C34"], opts={"upd": 1.5, "gen": 1.0, "regen": 1.0, "idx": 2.5},
                 focus={"scan": 8.0, "accumulate": 3.0, "reduce": 3.0, "iterate": 3.0, "iterate_final": 3.0, "walk": 0.5}),
     "C13": dict(title="switch, or_else and mix follow exactly one branch consistently", strength="partial", extras="c13_extra",
                 modules=["GenjaxVerif.Props.C13"],
                 theorems=["C13_switch_is_branch", "C13_switch_update_same_branch", "C13_switch_args", "C13_orElse_def",
                           "C13_orElse_index", "C13_clamp"],
-                props=["C01", "C02", "C03", "C05", "C10"], opts={"upd": 1.5, "gen": 1.5, "regen": 0.0, "proj": 1.0, "bwd": 0.0},
-                focus={"switch": 10.0, "orelse": 6.0, "vmap": 2.0}),
+                props=["C01", "C02", "C03", "C05", "C10"], opts={"upd": 1.5, "gen": 1.5, "regen": 0.0, "proj": 1.0, "bwd": 0.0, "py": 0.3},
+                focus={"switch": 10.0, "orelse": 6.0, "vmap": 2.0, "oob": 0.2}),
     "C15": dict(title="dimap, map and contramap only transform arguments and return values", strength="full",
                 modules=["GenjaxVerif.Props.C15"],
                 theorems=["C15_dimap_transparent", "C15_map_contramap_def", "C15_identity_maps", "C15_edit_uses_inner_trace"],
@@ -77,7 +79,7 @@ E = {
     "C16": dict(title="masked iteration steps with a false mask are inert", strength="full",
                 modules=["GenjaxVerif.Props.C16"],
                 theorems=["C16_final_def", "C16_step"],
-                props=["C01", "C02", "C03"], opts={"upd": 0.5, "regen": 0.0, "proj": 0.0, "gen": 1.5, "bwd": 0.0},
+                props=["C01", "C02", "C03", "C05"], opts={"upd": 1.5, "regen": 0.0, "proj": 0.0, "gen": 1.5, "bwd": 0.0},
                 focus={"masked_iterate": 10.0, "masked_iterate_final": 14.0}),
     "C22": dict(title="the static language traces exactly the visited addresses, once each", strength="full",
                 modules=["GenjaxVerif.Props.C22"],
@@ -89,17 +91,17 @@ E = {
                 modules=["GenjaxVerif.Props.C19", "GenjaxVerif.Props.C20", "GenjaxVerif.Props.C11"],
                 theorems=["GenjaxVerif.MaskModel.C19_mode_invariance", "GenjaxVerif.MaskModel.C20_flagop_mode_invariance",
                           "C11_vmap_elementwise"],
-                props=["C01", "C02", "C03", "C05", "C07", "C10"], opts={"jit": 0.7}, focus={}),
+                props=["C01", "C02", "C03", "C05", "C07", "C10"], opts={"jit": 0.6, "py": 0.5}, focus={"switch": 3.0, "orelse": 2.0, "oob": 0.25}),
     "C32": dict(title="generative function closures and keyword handling are transparent", strength="partial",
                 modules=["GenjaxVerif.Props.C32"],
                 theorems=["C32_closure_args", "C32_closure_transparent"],
-                props=["C01", "C02", "C03", "C05", "C07"], opts={"upd": 3.0, "regen": 1.5, "gen": 1.0},
+                props=["C01", "C02", "C03", "C05", "C07"], opts={"upd": 3.0, "regen": 1.5, "gen": 1.0, "reclose": 2.5},
                 focus={"closure": 14.0}),
     "C34": dict(title="get_subtrace returns the sub-execution at an address", strength="partial",
                 modules=["GenjaxVerif.Props.C34"],
                 theorems=["C34_subtrace_choices", "C34_subtrace_score", "C34_delegation"],
-                props=["C34"], opts={"subtrace": 5.0, "upd": 1.0, "regen": 0.5, "proj": 0.0},
-                focus={"int": 6.0, "static": 6.0, "tuple_addr": 0.4}),
+                props=["C34", "C01"], opts={"subtrace": 5.0, "upd": 1.0, "regen": 0.5, "proj": 0.0, "idx": 2.0},
+                focus={"int": 6.0, "static": 6.0, "tuple_addr": 0.4, "scan": 4.0, "vmap": 2.0, "walk": 0.6}),
     "C35": dict(title="masked constraint values act as conditional constraints", strength="full",
                 modules=["GenjaxVerif.Props.C35"],
                 theorems=["C35_generate_masked", "C35_update_masked", "C35_vector_elementwise"],
@@ -108,8 +110,11 @@ E = {
     "C38": dict(title="derived GFI methods and request combinators agree with the primitives", strength="partial",
                 modules=["GenjaxVerif.Props.C38"],
                 theorems=["C38_propose_eq_simulate", "C38_importance_eq_generate", "C38_empty_request_nochange",
-                          "C38_empty_request_changed", "C38_simulate_weight"],
-                props=["C38", "C01"], opts={"propose": 3.0, "empty": 3.0, "upd": 1.0, "regen": 0.3, "proj": 0.3}, focus={}),
+                          "C38_empty_request_changed", "C38_simulate_weight", "C38_static_request_of_updates",
+                          "C38_static_request_of_regenerates", "C38_static_request_table", "C38_static_request_empty",
+                          "C38_static_request_weight", "C38_static_request_static_only"],
+                props=["C38", "C01", "C06"], opts={"propose": 3.0, "empty": 3.0, "upd": 1.0, "regen": 0.3, "proj": 0.3, "sreq": 3.0},
+                focus={"int": 14.0, "static": 4.0}),
 }
 
 TEMPLATE = '''"""{pid} — {title}.
